@@ -11,7 +11,8 @@ EXPLANATION = (
     "patterns in [0,2^n) by the sign-bit test (bit n-1, boundary 100..0 included) to v - 2^n; reflected/in-place aliases only onto the same commutative operator. "
     "Residual: iteration over array operands by @array_support (outside the quantifier's scalar patterns); Python's & | ^ on ints (lemma)."
     ' Added after the third round of seeded changes: R4 element-wise helpers read and rebuild arrays in the same (C) order; raw stores bypass the scale/bias map (C17.R1); codes reach the buffer only through set_val (C02.R1).'
-    ' Added after the fourth round of seeded changes: C20.R8 objects carry only the documented attributes and no function writes module-level containers (no caches / memos that go stale).')
+    ' Added after the fourth round of seeded changes: C20.R8 objects carry only the documented attributes and no function writes module-level containers (no caches / memos that go stale).'
+    ' Added after the fifth round of seeded changes: constructor state (C20.R2); C20.R8 also forbids mutable default arguments and private attributes hung on operands (x._cache, x.__dict__[...]).')
 ASSUMPTIONS = ["for 0 <= v < 2^n: (v & 2^(n-1)) != 0  <=>  v >= 2^(n-1)"]
 TRUSTED = ["CPython ast", "fxlint term normaliser"]
 
